@@ -116,6 +116,7 @@ def pool(tier):
         "y ~ f:g:h",
         "y ~ (0 + f | g + h) + (1 | h)", "y ~ (1 | g) + (0 + f | g + h)", "y ~ (f | g + h)", "y ~ (0 + f | g/h) + (1 | g)", "y ~ (0 + o | h + g) + (x | g)",
         "y ~ f/g", "y ~ (f + g):h + f", "y ~ f/x + (f | g)", "y ~ (f + g)*scale(x)",
+        "y ~ (1 | g:h) + (0 + x | h:g)", "y ~ (x | g:h) + (0 + f | h:g)", "y ~ (1 | I(k):g)", "y ~ (x | np.floor(z))", "y ~ (0 + x | I(k)) + (1 | np.round(x))",
         "y ~ I(f)", "y ~ 0 + up(f)", "y ~ up(f):x", "y ~ x + (x | up(g))", "y ~ (0 + I(f) | g)",
     ]
     if tier == "thorough":
